@@ -224,6 +224,8 @@ func c08CompRequests() []caldav.CalendarCompRequest {
 		{Name: "VCALENDAR", Props: []string{"VERSION"}},
 		{Name: "VCALENDAR", Props: []string{"VERSION", "X-é"}, Comps: []caldav.CalendarCompRequest{{Name: "VEVENT", Props: []string{"SUMMARY", "UID"}}, {Name: "VTIMEZONE", AllProps: true, AllComps: true}}},
 		{Name: "VCALENDAR", AllProps: true, Comps: []caldav.CalendarCompRequest{{Name: "VEVENT", AllComps: true, Props: []string{"DTSTART"}}}},
+		// components that select no property at all (neither allprop nor prop) at the top and below
+		{Name: "VCALENDAR", Comps: []caldav.CalendarCompRequest{{Name: "VEVENT", Props: []string{"SUMMARY"}}, {Name: "VTIMEZONE"}}},
 		{Name: "VCALENDAR", AllProps: true, AllComps: true, Expand: &caldav.CalendarExpandRequest{Start: s, End: e}},
 	}
 }
